@@ -146,6 +146,17 @@ class UDPMessageDeserializer:
         msg.raw_body = None
         msg.deserializer = None
 
+        try:
+            self._parse_message_body(msg, raw_body)
+        except Exception:
+            # Body couldn't be parsed. Throw away whatever was partially parsed and put the
+            # raw body back so the message can still be forwarded exactly as it arrived.
+            msg.blocks = {}
+            msg.raw_body = raw_body
+            msg.deserializer = weakref.ref(self)
+            raise
+
+    def _parse_message_body(self, msg: Message, raw_body: bytes):
         if msg.zerocoded:
             raw_body = self.zero_code_expand(raw_body)
 
